@@ -870,6 +870,10 @@ async fn server_handler(ctx: Ctx, spec: Option<StreamSpec>, idx: u32, req: Reque
         })
         .await;
     }
+    yield_n(spec.respond_delay).await;
+    if spec.respond_gate {
+        poll_fn(sim::poll_gate).await;
+    }
     if let Some(code) = spec.server_reset {
         let id = call(&ctx, Op::SendReset, idx, sid, code as u64, 1, false, None);
         respond.send_reset(Reason::from(code));
